@@ -1,4 +1,4 @@
-(* metric queries: prints, for every case of Cases.cases, "<id> <analyze_m15 0|1><m15_representable 0|1> <hex sql | -> ..." *)
+(* metric queries: prints, for every case of Cases.cases, "<id> <analyze_m15 0|1><m15_representable 0|1><number of label-filter stages> <hex sql | -> ..." *)
 let hex_of_chars (l : char list) : string =
   let b = Buffer.create 4096 in
   List.iter (fun c -> Buffer.add_string b (Printf.sprintf "%02x" (Char.code c))) l;
@@ -11,6 +11,8 @@ let () =
     print_string (string_of_int id);
     print_string (if Logqlplan.analyze_m15 script then " 1" else " 0");
     print_string (if Logqlplan.m15_representable script then "1" else "0");
+    let rec int_of_nat = function Logqlplan.O -> 0 | Logqlplan.S k -> 1 + int_of_nat k in
+    print_string (string_of_int (int_of_nat (Logqlplan.n_label_filters script)));
     List.iter (fun o -> print_char ' '; match o with
       | Some s -> print_string (hex_of_chars s)
       | None -> print_string "-") res;
